@@ -659,9 +659,24 @@ class Machine:
         if a is None:
             return
         S = self.slots[a]
-        how = rng.pick(['copy', 'copy', 'deepcopy'])
+        how = rng.pick(['copy', 'copy', 'deepcopy', 'rebuild'])
+        if how == 'rebuild' and S.model.compound:
+            how = 'copy'
         try:
-            obj = S.obj.copy() if how == 'copy' else copy.deepcopy(S.obj)
+            if how == 'rebuild':
+                # the documented building blocks of a copy: PixCoord.copy(),
+                # RegionMeta.copy(), RegionVisual.copy() (what the pixel<->sky
+                # conversions use) - each must be independent as well
+                from regions import PixCoord
+                kw = {}
+                for f, _ in S.model.fields():
+                    v = getattr(S.obj, f)
+                    kw[f] = v.copy() if isinstance(v, PixCoord) \
+                        else copy.deepcopy(v)
+                obj = type(S.obj)(**kw, meta=S.obj.meta.copy(),
+                                  visual=S.obj.visual.copy())
+            else:
+                obj = S.obj.copy() if how == 'copy' else copy.deepcopy(S.obj)
         except Exception as exc:
             self.violation('V2-copy-raises', f'{how}() of {S.model.cls} '
                            f'raised {exc!r}', cls=S.model.cls)
@@ -673,6 +688,7 @@ class Machine:
         self.ev(slot=i, src=a, how=how, cls=S.model.cls)
         self.state('copy', how, S.model.cls)
         self.check_unchanged({id(m)}, 'V1-independence', f'{how}({a})')
+        self.probe_copy(i, rng)
 
     def op_copy_changes(self, op, rng):
         a = self.pick(op['s'], lambda s: s.kind == 'region')
@@ -754,11 +770,27 @@ class Machine:
         self.state('copy_changes', S.model.cls, tuple(sorted(changes)))
         self.check_unchanged({id(m)}, 'V1-independence',
                              f'copy({a}, **{sorted(changes)})')
+        self.probe_copy(i, rng)
+
+    def probe_copy(self, i, rng):
+        """Right after a copy was made: edit the copy in place through the
+        objects it holds (0-2 edits); V1 then checks the original."""
+        for _ in range(rng.weighted([(0, 4), (1, 4), (2, 2)])):
+            self.cur_op = 'mutate'
+            self._mutate(i, rng, inplace_only=True)
+        self.cur_op = self.plan['ops'][self.step]['op']
 
     def op_mutate(self, op, rng):
         a = self.pick(op['s'], lambda s: s.kind == 'region')
         if a is None:
             return
+        self._mutate(a, rng)
+
+    def _mutate(self, a, rng, inplace_only=False):
+        """Mutate slot ``a``.  ``inplace_only``: an edit made *through* an
+        object the slot holds (coordinate, array, Quantity, nested list) -
+        the kind of edit that reveals state shared between a copy and its
+        original."""
         S = self.slots[a]
         m, obj = S.model, S.obj
         touched = set()
@@ -769,6 +801,8 @@ class Machine:
             _mark_unknown_up(self.slots, m)
         if m.compound:
             c = rng.weighted([('nested', 4), ('setdict', 2), ('dictedit', 2)])
+            if inplace_only:
+                c = 'nested'
             if c == 'nested':
                 # descend to a simple operand
                 path = []
@@ -780,12 +814,18 @@ class Machine:
                         else target_m.r2
                 what = '.'.join(path) + '.'
                 kind_choice = rng.weighted([('setattr', 3), ('deep', 2)])
+                if inplace_only:
+                    kind_choice = 'deep'
             else:
                 kind_choice = c
         else:
             kind_choice = rng.weighted([('setattr', 4), ('setdict', 2),
                                         ('dictedit', 4), ('deep', 4),
                                         ('reunit', 1)])
+            if inplace_only:
+                has_tag = isinstance(m.meta.d.get('tag'), list)
+                kind_choice = 'dictedit' if has_tag and rng.chance(0.5) \
+                    else 'deep'
         what = what or ''
         tm, to = target_m, target_o
         kinds = dict(tm.fields())
@@ -828,6 +868,8 @@ class Machine:
                 e = rng.weighted([('set', 4), ('del', 2), ('update', 2),
                                   ('clear', 1), ('pop', 1), ('tag', 2),
                                   ('setdefault', 1)])
+                if inplace_only:
+                    f, d, md, e = 'meta', getattr(to, 'meta'), tm.meta, 'tag'
                 if e in ('del', 'pop') and not md.d:
                     e = 'set'
                 if e == 'tag' and not isinstance(md.d.get('tag'), list):
